@@ -292,6 +292,25 @@ def _mk_seq_any_tagged(**s):
     return av
 
 
+# SET whose untagged CHOICE member has EXPLICITly tagged alternatives: canonical order follows the outermost tag actually sent
+SET_CHX = T("SET", comps=[("b", OCTS.tagged(("I", "C", 3)), "req", None),
+                          ("c", T("CHOICE", comps=[("x", INT.tagged(("E", "C", 5)), "req", None), ("y", BOOL.tagged(("I", "C", 1)), "req", None),
+                                                   ("z", UTF8, "req", None), ("w", NULL.tagged(("E", "A", 2)), "req", None)]), "req", None),
+                          ("e", INT.tagged(("E", "C", 4)), "opt", None)],
+            name="SET{b [3]I OCTS,c CHOICE{x [5]E INT,y [1]I BOOL,z UTF8,w [A2]E NULL},e [4]E INT?}")
+
+
+def _mk_set_chx(**s):
+    w = s["w"]
+    c = ("x", s["i0"]) if w == 0 else ("y", s["f0"]) if w == 1 else ("z", utf8_of([s["c0"]])) if w == 2 else ("w", None)
+    av = {"b": bytes([s["o0"]][: s["n"]]), "c": c}
+    if s["he"]:
+        av["e"] = s["i1"]
+    return av
+
+
+P_SET_CHX = {"w": I(0, 3), "i0": SMALL, "f0": B, "c0": I(0, 0x7FF), "o0": BYTE, "n": I(0, 1), "he": B, "i1": I(0, 1)}
+
 # OPTIONAL constructed members: "absent" and "present but empty" are different abstract values
 SEQ_OPTC = T("SEQ", comps=[("a", INT, "req", None),
                            ("i", T("SEQ", comps=[("x", INT, "opt", None)]), "opt", None),
@@ -332,6 +351,7 @@ def constructed():
     C.append(Entry("seqof_choice", T("SEQOF", elem=CH), dict(P_CHOICE, k=I(0, 2)), lambda **s: [_mk_choice(**s), ("x", 7)][: s["k"]], ["constructed", "list", "nested", "choice"]))
     C.append(Entry("seq_any", SEQ_ANY, P_SEQ_ANY, _mk_seq_any, ["constructed", "record", "any"]))
     C.append(Entry("seq_any.E", SEQ_ANY_TAGGED, dict(P_SEQ_ANY, hv=B), _mk_seq_any_tagged, ["constructed", "record", "any"]))
+    C.append(Entry("set_chx", SET_CHX, P_SET_CHX, _mk_set_chx, ["constructed", "record", "set", "choice", "has_explicit"], shard=("w",)))
     C.append(Entry("seq_optc", SEQ_OPTC, P_SEQ_OPTC, _mk_seq_optc, ["constructed", "record", "nested"], shard=("hi", "hl")))
     C.append(Entry("seqof_empty_elem", T("SEQOF", elem=T("SEQOF", elem=NULL)), {"k": I(0, 2), "k2": I(0, 2)}, lambda **s: [[None] * s["k2"], []][: s["k"]], ["constructed", "list", "nested", "univ"]))
     return C
